@@ -9,19 +9,17 @@ setup: regen coq drivers
 regen:
 	python3 bin/regen
 
-coq/Makefile: coq/_CoqProject
-	cd coq && coq_makefile -f _CoqProject -o Makefile
-
-coq: coq/Makefile
-	cd coq && timeout $(COQTIMEOUT) $(MAKE) -j16
+coq:
+	python3 bin/mkcoqproject
+	cd coq && timeout $(COQTIMEOUT) $(MAKE) -k -j16
 
 drivers: $(DRIVERS)
 
 # extraction: coq/Extract_<id>.v writes ocaml/gen/<id>_model.ml(i) (path given inside the .v file, relative to coq/)
 ocaml/gen/%_model.ml: coq/Extract_%.v $(wildcard coq/C*/*.v) $(wildcard coq/Common/*.v)
 	mkdir -p ocaml/gen
-	test -f coq/Makefile || (cd coq && coq_makefile -f _CoqProject -o Makefile)
-	cd coq && timeout $(COQTIMEOUT) $(MAKE) -j16 > /dev/null
+	python3 bin/mkcoqproject
+	cd coq && timeout $(COQTIMEOUT) $(MAKE) -j16 $(patsubst %.v,%.vo,$(shell grep -h '\.v$$' coq/Common/FILES coq/$*/FILES | grep -v '^Properties_')) > /dev/null
 	cd coq && timeout 900 coqc -Q . TLXV Extract_$*.v > /dev/null
 	test -f $@
 
